@@ -28,10 +28,10 @@ def caught_by(m):
     extra = [f"{k} {list(x.keys())[0]}: {list(x.values())[0]}" for k, x in m.get("checks", {}).items() if k != prop and isinstance(x, dict) and "CAUGHT" in x.values()]
     return f"**{v}** by {prop} quick" + (f"; {', '.join(extra)}" if extra else "")
 
-titles = {1: "**Round 1** (2 per property)", 2: "**Round 2** (3 per property, asked to evade a generic harness)", 3: "**Round 3** (2 per property, told what the harness covers)", 4: "**Round 4** (2 per property, told everything that was added since; 3 of 40 deliveries rejected as outside the stated properties)", 5: "**Round 5** (2 each for 8 properties, told what round 4 added)"}
+titles = {1: "**Round 1** (2 per property)", 2: "**Round 2** (3 per property, asked to evade a generic harness)", 3: "**Round 3** (2 per property, told what the harness covers)", 4: "**Round 4** (2 per property, told everything that was added since; 3 of 40 deliveries rejected as outside the stated properties)", 5: "**Round 5** (2 each for 8 properties, told what round 4 added)", 6: "**Round 6** (2 each for the other 12 properties, told what round 5 added; 1 of 24 deliveries rejected as outside the stated property)"}
 out = []
 total = caught = 0
-for r in (1, 2, 3, 4, 5):
+for r in (1, 2, 3, 4, 5, 6):
     names = [n for n in metas if rnd(n) == r]
     if not names:
         continue
